@@ -210,6 +210,8 @@ func runC05(c *Ctx) {
 		}
 	}
 
+	runC05Keyed(c)
+
 	// ---- R2
 	commitFn := c.Fn("C05.R2", "centrifuge", "(*Client).commitSubscription")
 	if commitFn != nil {
@@ -667,9 +669,17 @@ func runC07(c *Ctx) {
 	c.Floor("C07.R1", 5)
 	// R2: join after commit
 	commitLike := func(fn *ssa.Function) func(ssa.Instruction) bool {
+		// a function that commits explicitly (server-side Subscribe, map live transition) is judged on
+		// that commit; elsewhere subscribeCmd, which commits internally, is the commit point
+		ownCommit := len(CallsIn(fn, false, w.calleeIs("Client.commitSubscription"))) > 0
 		return func(in ssa.Instruction) bool {
-			if ci := asCall(in); ci != nil && w.calleeIs("Client.commitSubscription", "Client.subscribeCmd")(ci) {
-				return true
+			if ci := asCall(in); ci != nil {
+				if w.calleeIs("Client.commitSubscription")(ci) {
+					return true
+				}
+				if !ownCommit && w.calleeIs("Client.subscribeCmd")(ci) {
+					return true
+				}
 			}
 			if mu, ok := in.(*ssa.MapUpdate); ok && loadsField(mu.Map, "Client", "channels") && strings.Contains(D(mu.Value), "channelContext") {
 				return true
@@ -709,6 +719,36 @@ func runC07(c *Ctx) {
 		}
 	}
 	c.Floor("C07.R2", 4)
+	// a commit that reports !committed (rolled back) reaches no join
+	for _, f := range w.AllFuncs {
+		for _, cc := range CallsIn(f, false, w.calleeIs("Client.commitSubscription")) {
+			v := cc.Value()
+			if v == nil {
+				continue
+			}
+			for _, r := range *v.Referrers() {
+				ex, ok := r.(*ssa.Extract)
+				if !ok || ex.Index != 1 {
+					continue
+				}
+				var failBlocks []*ssa.BasicBlock
+				for _, ifi := range ifsOn(ex) {
+					failBlocks = append(failBlocks, ifi.Block().Succs[1])
+				}
+				for _, rr := range *ex.Referrers() {
+					if u, ok := rr.(*ssa.UnOp); ok && u.Op == token.NOT {
+						for _, ifi := range ifsOn(u) {
+							failBlocks = append(failBlocks, ifi.Block().Succs[0])
+						}
+					}
+				}
+				for _, fb := range failBlocks {
+					bad := PathQ{Goal: instrPred(isJoin)}.FromBlock(fb)
+					c.Check("C07.R2", cc, "a rolled-back commit reaches no join publication", bad == nil, "the attempt never entered c.channels, so close() publishes no leave for it: the join would be unpaired")
+				}
+			}
+		}
+	}
 	// failing subscribeCmd results never reach the join
 	for _, fname := range []string{"(*Client).handleSubscribe", "(*Client).Subscribe"} {
 		fn := c.W.Func("centrifuge", fname)
